@@ -110,16 +110,24 @@ Inductive alias_out :=
   | OutNone.
 
 Definition s_alias_sp : str := [97;108;105;97;115;32].          (* alias_ *)
-Definition listing_line (n v : str) : str := s_alias_sp ++ n ++ [c_eq; c_sq] ++ v ++ [c_sq].
+Definition has_sq (s : str) : bool := existsb (fun c => c =? c_sq) s.
+(** characters that are special inside double quotes: double quote, dollar, backquote, backslash *)
+Definition is_dq_special (c : char) : bool := (c =? c_dq) || (c =? c_dollar) || (c =? c_bq) || (c =? c_bs).
+Definition has_special (s : str) : bool := existsb is_dq_special s.
+(** format_alias: double quotes when the value holds a single quote and nothing special inside double quotes *)
+Definition list_dq (v : str) : bool := has_sq v && negb (has_special v).
+Definition listing_line (n v : str) : str :=
+  if list_dq v then s_alias_sp ++ n ++ [c_eq; c_dq] ++ v ++ [c_dq]
+  else s_alias_sp ++ n ++ [c_eq; c_sq] ++ v ++ [c_sq].
 
 Section Builtin.
   Variable unquote : str -> str.
 
-  (** builtins/alias.rs run: [args] = the texts of the command's tokens after the command word *)
-  Definition alias_builtin (t : table) (args : list str) : table * alias_out :=
+  (** builtins/alias.rs run: [args] = the command's tokens after the command word *)
+  Definition alias_builtin (t : table) (args : list token) : table * alias_out :=
     match args with
     | [] => (t, OutList (map (fun kv => listing_line (fst kv) (snd kv)) t))
-    | [input] =>
+    | [(sep, input)] =>
       if is_name input then
         match get_alias_content t input with
         | Some v => (t, OutOne (listing_line input v))
@@ -128,7 +136,8 @@ Section Builtin.
       else
         match split_def input [] with
         | Some (name, rest) =>
-          let value := if starts_with_quote rest then unquote rest else rest in
+          (* a tagged token had its quotes removed by the tokenizer: the value is verbatim *)
+          let value := if tag_eqb sep TNone && starts_with_quote rest then unquote rest else rest in
           (add_alias t (unquote name) value, OutNone)
         | None => (t, OutNone)
         end
@@ -145,9 +154,10 @@ End Builtin.
 (** Reading a single-quoted word (cicada's tokenizer inside quotes of one kind:
     everything up to the next quote of that kind; no escape inside single quotes):
     used only to state why a listed value with a quote cannot be read back. *)
-Fixpoint sq_read (s : str) : option (str * str) :=
+Fixpoint q_read (q : char) (s : str) : option (str * str) :=
   match s with
   | [] => None
-  | c :: r => if c =? c_sq then Some ([], r)
-              else match sq_read r with Some (v, rest) => Some (c :: v, rest) | None => None end
+  | c :: r => if c =? q then Some ([], r)
+              else match q_read q r with Some (v, rest) => Some (c :: v, rest) | None => None end
   end.
+Definition sq_read := q_read c_sq.
